@@ -209,21 +209,6 @@ func bitCount(b []byte) int {
 	return n
 }
 
-// drain follows the default policy (first StdAction) until nothing is enabled. Setup only.
-func (w *World) drain(max int) { w.drainUntil(max, func() bool { return false }) }
-
-func (w *World) drainUntil(max int, stop func() bool) {
-	w.Quiesce()
-	for i := 0; i < max && w.Dead == "" && !stop(); i++ {
-		acts := StdActions(w)
-		if len(acts) == 0 {
-			return
-		}
-		acts[0].Do(w)
-		w.Quiesce()
-	}
-}
-
 // c04Truth: the reported state is truthful (evaluated after every step).
 func c04Truth(w *World) {
 	s := w.Tor.VerifState()
